@@ -24,7 +24,7 @@ func runC08(c *Ctx) {
 	}
 	c.NotDec = []string{"the 10 ms disambiguation delay itself (real time)", "behaviour for end-of-input at every byte offset (values)"}
 	c.expect("C08.a", 9)
-	c.expect("C08.b", 5)
+	c.expect("C08.b", 3)
 	c.expect("C08.c", 1)
 	pk := c.P.Pkg("ansi")
 	if pk == nil {
@@ -379,6 +379,14 @@ func parserOwnership(c *Ctx, rule string) {
 		}
 		return false, types.ExprString(e)
 	}
+	covered := map[string]bool{}
+	defer func() {
+		// non-vacuity: the parser hands over at least three distinct buffers (intermediates, OSC and APC payloads
+		// on today's tree); the count of hand-over SITES depends on how the code is cut into helpers
+		if len(covered) < 3 {
+			c.undecided(rule, "coverage/distinct delivered buffers", 0, "only %d parser buffers are seen being handed over (%v): the rule no longer sees the deliveries", len(covered), sortedKeys(covered))
+		}
+	}()
 	for _, fi := range c.P.FuncsIn("ansi") {
 		if fi.Decl.Recv == nil || fi.Decl.Body == nil {
 			continue
@@ -433,6 +441,9 @@ func parserOwnership(c *Ctx, rule string) {
 		}
 		if len(aliases) == 0 {
 			continue
+		}
+		for _, a := range aliases {
+			covered[a.field] = true
 		}
 		// does the function deliver or store the alias? (emit here, or the alias is stored into another parser field emitted elsewhere)
 		_ = emits
@@ -493,11 +504,27 @@ func c08TimerHazard(c *Ctx) {
 			if fn == nil || fullName(fn) != "time.AfterFunc" || len(call.Args) != 2 {
 				return true
 			}
-			lit, ok := call.Args[1].(*ast.FuncLit)
-			if !ok {
+			// the callback: a literal, or a method value / function of the package
+			var lit ast.Node
+			var litBody *ast.BlockStmt
+			var lg *FG
+			switch cb := unparen(call.Args[1]).(type) {
+			case *ast.FuncLit:
+				lit, litBody = cb, cb.Body
+				lg = c.P.GraphOfLit(fi.Pkg, fi.Name+"$timer", cb)
+			default:
+				if f := calleeOfExpr(info, cb); f != nil {
+					if cfi := c.P.FuncOfObj(f); cfi != nil && cfi.Decl.Body != nil {
+						lit, litBody = cfi.Decl, cfi.Decl.Body
+						lg = c.P.Graph(cfi)
+					}
+				}
+			}
+			if lit == nil {
+				c.undecided("C08.c", fi.Name+"/timer callback", call.Pos(), "the function passed to time.AfterFunc cannot be resolved to a body")
 				return true
 			}
-			sends := containsNode(lit.Body, func(m ast.Node) bool {
+			sends := containsNode(litBody, func(m ast.Node) bool {
 				c2, ok := m.(*ast.CallExpr)
 				if !ok {
 					return false
@@ -511,7 +538,6 @@ func c08TimerHazard(c *Ctx) {
 			}
 			// The emission is ordered before run's close iff the callback tests, under the parser
 			// mutex, a flag that run sets under the same mutex before closing.
-			lg := c.P.GraphOfLit(fi.Pkg, fi.Name+"$timer", lit)
 			key := fi.Name + "/timer callback emission ordered before close(sequences)"
 			isLock := func(m ast.Node) bool {
 				c2, ok := m.(*ast.CallExpr)
